@@ -172,3 +172,29 @@ Definition dco_skips_unrepaired (o : op) : bool := match o with OpMemWr _ => tru
 Definition dco_chain_witness : netlist :=
   mkNetlist [mkWire 1 3 KInput; mkWire 2 3 KOutput; mkWire 3 3 KWire; mkWire 4 3 KWire; mkWire 5 3 KWire]
             [mkNet OpNot [1] 5; mkNet OpW [5] 3; mkNet OpW [3] 4; mkNet OpW [4] 2] [].
+
+(* ---------- direct_connect_outputs postcondition for sane blocks ---------- *)
+Lemma nodupb_NoDup l : nodupb l = true -> NoDup l.
+Proof.
+  induction l as [|x r IH]; intro H; [constructor|].
+  cbn [nodupb] in H. apply andb_true_iff in H. destruct H as [H1 H2].
+  constructor; [|apply IH; exact H2].
+  intro Hin. apply mem_in_spec in Hin. rewrite Hin in H1. discriminate.
+Qed.
+
+Lemma sane_outputs_unread nl : sanity_block nl = true -> outputs_unread nl.
+Proof.
+  intros H x n Hx Hk Hn Hin.
+  pose proof H as H'. unfold sanity_block in H'. repeat (apply andb_true_iff in H'; destruct H' as [H' ?]).
+  rewrite forallb_forall in H'. specialize (H' n Hn).
+  unfold sanity_net in H'. repeat (apply andb_true_iff in H'; destruct H' as [H' ?]).
+  match goal with Hf : forallb (fun x0 => negb (kind_is_output nl x0)) (nargs n) = true |- _ =>
+    rewrite forallb_forall in Hf; specialize (Hf _ Hin); unfold kind_is_output, kind_of in Hf end.
+  match goal with Hd : nodupb (map wname (wires nl)) = true |- _ =>
+    rewrite (find_wire_nodup (wires nl) x (nodupb_NoDup _ Hd) Hx) in * end.
+  rewrite Hk in *. discriminate.
+Qed.
+
+Theorem dco_post_sane nl : sanity_block nl = true ->
+  post_direct_connect_outputs (direct_connect_outputs nl) = true.
+Proof. intro H. apply dco_post. apply sane_outputs_unread. exact H. Qed.
